@@ -517,3 +517,46 @@ def run_case_socket(case):
         return anyio.run(_drive_socket, case)
     except Exception as ex:
         return {"transcript": [], "hdrs": [], "posts": 0, "fence": False, "crash": type(ex).__name__}
+
+
+# ----------------------------------------------------------------------------- streaming branch
+
+def run_stream(chunks, rid=7):
+    """Drive the streaming branch of `_process_sse_response` (unreachable with an httpx response,
+    which always has `.text`): a response object without `.text` whose `aiter_text` yields the
+    given chunks.  Returns the messages routed to the read stream, or {"skipped": why} when the
+    transport has no such method any more."""
+    import anyio
+
+    class Stub:
+        headers = {}
+        status_code = 200
+
+        def __init__(self, chunks):
+            self._chunks = chunks
+
+        async def aiter_text(self, chunk_size=None):
+            for c in self._chunks:
+                yield c
+
+    async def main():
+        T = _transport_module()
+        from chuk_mcp.transports.http import StreamableHTTPParameters
+        out = []
+        async with T.StreamableHTTPTransport(StreamableHTTPParameters(url=URL)) as t:
+            fn = getattr(t, "_process_sse_response", None)
+            if fn is None:
+                return {"skipped": "no _process_sse_response"}
+            rd, _ = await t.get_streams()
+            await fn(Stub(list(chunks)), rid)
+            while True:
+                try:
+                    out.append(canon_delivered(rd.receive_nowait()))
+                except (anyio.WouldBlock, anyio.EndOfStream):
+                    break
+        return {"transcript": out}
+
+    try:
+        return vloop.run(main)
+    except Exception as ex:
+        return {"skipped": f"{type(ex).__name__}"}
